@@ -89,6 +89,7 @@ Verdict ==
                 C20 |-> On("C20", C20(pre, step, post, out)),
                 C13 |-> On("C13", C13(pre, step, post, out)),
                 C14 |-> On("C14", C14(pre, step, post, out)),
+                C04 |-> On("C04", C04(pre, step, post, out)),
                 C07 |-> On("C07", C07Abort(pre, step, post, out) \cup
                              (IF "clean" \in DOMAIN j /\ step.faults # {}
                               THEN C07Pair(St(j.clean.post), OutOf(j.clean.out), post, out, step.faults) ELSE {}))]]
